@@ -124,3 +124,70 @@ pub fn twin() {
     let x = MerkleNode::from_digests(&d);
     vcheck!(x.count != 2, "twin:reachable");
 }
+
+// ---------------------------------------------------------------------------------------------------------------
+// sync: which keys a replica offers for the divergent buckets, under the per-round key limit
+use redis_sim::replication::anti_entropy::{AntiEntropyConfig, AntiEntropyManager};
+use redis_sim::replication::state::ShardReplicaState;
+
+fn manager(limit: usize, depth: usize) -> AntiEntropyManager {
+    AntiEntropyManager::new(ReplicaId(1), AntiEntropyConfig { sync_interval_ms: 1000, max_keys_per_sync: limit, merkle_tree_depth: depth, auto_sync_on_heal: true })
+}
+
+/// a replica holds two keys in different buckets (depth 1); only the second key's bucket is divergent. With a per-round
+/// limit of 1 the divergent key must still be offered: the limit bounds what is SENT, it must not cut the search short.
+/// (values symbolic; the key names are chosen so that their buckets differ - natively several name pairs are swept,
+/// because the real map's iteration order is not under the caller's control)
+pub fn sync_offer() {
+    let (ta, tb) = (any_clock(), any_clock());
+    let (xa, xb) = (vs::u8(), vs::u8());
+    let names: [&str; 6] = ["a", "b", "c", "d", "e", "f"];
+    let mgr = manager(1, 1);
+    let mut ok = true;
+    let mut tried = 0;
+    let mut i = 0;
+    while i < 6 {
+        let mut j = 0;
+        while j < 6 {
+            if i != j && (vs::NATIVE || tried == 0) {
+                let (va, vb) = (lww_value(xa, false, ta, None), lww_value(xb, false, tb, None));
+                let (ba, bb) = (KeyDigest::new(names[i], &va).bucket(1), KeyDigest::new(names[j], &vb).bucket(1));
+                if ba != bb {
+                    tried += 1;
+                    let mut m = crate::coll::HashMap::new();
+                    m.insert(names[i].to_string(), va);
+                    m.insert(names[j].to_string(), vb);
+                    let out = mgr.get_keys_in_buckets(&m, &[bb]);
+                    if !(out.len() == 1 && out[0].key.as_bytes() == names[j].as_bytes()) { ok = false; }
+                    std::mem::forget((out, m));
+                }
+            }
+            j += 1;
+        }
+        i += 1;
+    }
+    vcheck!(tried > 0, "sync:no key pair with different buckets found (harness)");
+    vcheck!(ok, "sync:a key of a divergent bucket is not offered although the per-round limit was not reached");
+}
+
+/// bounded liveness: replica A holds keys "a" and "b" (one bucket, depth 0) that replica B lacks; per-round limit 1;
+/// after `rounds` rounds of (A offers the keys of the divergent bucket, B applies them) B must hold both keys.
+pub fn sync_rounds(rounds: usize) {
+    let (ta, tb) = (any_clock(), any_clock());
+    let (xa, xb) = (vs::u8(), vs::u8());
+    let mgr = manager(1, 0);
+    let mut a = crate::coll::HashMap::new();
+    a.insert("a".to_string(), lww_value(xa, false, ta, None));
+    a.insert("b".to_string(), lww_value(xb, false, tb, None));
+    let mut b = ShardReplicaState::new(ReplicaId(2), redis_sim::replication::config::ConsistencyLevel::Eventual);
+    let mut r = 0;
+    while r < rounds {
+        let out = mgr.get_keys_in_buckets(&a, &[0]);
+        vcheck!(out.len() == 1, "sync:the per-round limit is not respected");
+        for d in out { b.apply_remote_delta(d); }
+        r += 1;
+    }
+    let done = b.replicated_keys.get("a").is_some() && b.replicated_keys.get("b").is_some();
+    vcheck!(done, "sync:a replica never receives a key of a divergent bucket that holds more keys than the per-round limit");
+    std::mem::forget((a, b));
+}
